@@ -9,6 +9,31 @@ import re
 _HERE = os.path.dirname(os.path.abspath(__file__))
 
 
+def _collect(node, in_func, names):
+    """Local variables of functions are not anchors: no analyser matches them by name, and renaming
+    one is an everyday behaviour-preserving edit."""
+    for n in ast.iter_child_nodes(node):
+        if isinstance(n, (ast.FunctionDef, ast.AsyncFunctionDef, ast.ClassDef)):
+            names.add(n.name)
+            if not isinstance(n, ast.ClassDef):
+                a = n.args
+                for p in a.posonlyargs + a.args + a.kwonlyargs + ([a.vararg] if a.vararg else []) + ([a.kwarg] if a.kwarg else []):
+                    names.add(p.arg)
+            _collect(n, in_func or not isinstance(n, ast.ClassDef), names)
+            continue
+        if isinstance(n, ast.Attribute) and isinstance(n.ctx, ast.Store):
+            names.add(n.attr)
+        elif isinstance(n, ast.Name) and isinstance(n.ctx, ast.Store):
+            if not in_func:
+                names.add(n.id)
+        elif isinstance(n, ast.AnnAssign) and isinstance(n.target, ast.Attribute):
+            names.add(n.target.attr)
+        elif isinstance(n, ast.Constant) and isinstance(n.value, str) and re.fullmatch(r"_?[a-z][a-z0-9_]{2,}", n.value):
+            # attribute names used through setattr()/the generated wrapper class ('_break', ...)
+            names.add(n.value)
+        _collect(n, in_func, names)
+
+
 def repo_names(repo):
     """Every attribute / method / function / class / module-level name defined under <repo>/oneliner."""
     names = set()
@@ -22,22 +47,7 @@ def repo_names(repo):
             except SyntaxError:
                 continue
             names.add(f[:-3])
-            for n in ast.walk(tree):
-                if isinstance(n, (ast.FunctionDef, ast.AsyncFunctionDef, ast.ClassDef)):
-                    names.add(n.name)
-                    if not isinstance(n, ast.ClassDef):
-                        a = n.args
-                        for p in a.posonlyargs + a.args + a.kwonlyargs + ([a.vararg] if a.vararg else []) + ([a.kwarg] if a.kwarg else []):
-                            names.add(p.arg)
-                elif isinstance(n, ast.Attribute) and isinstance(n.ctx, ast.Store):
-                    names.add(n.attr)
-                elif isinstance(n, ast.Name) and isinstance(n.ctx, ast.Store):
-                    names.add(n.id)
-                elif isinstance(n, ast.AnnAssign) and isinstance(n.target, (ast.Name, ast.Attribute)):
-                    names.add(n.target.id if isinstance(n.target, ast.Name) else n.target.attr)
-                elif isinstance(n, ast.Constant) and isinstance(n.value, str) and re.fullmatch(r"_?[a-z][a-z0-9_]{2,}", n.value):
-                    # attribute names used through setattr()/the generated wrapper class ('_break', ...)
-                    names.add(n.value)
+            _collect(tree, False, names)
     return names
 
 
